@@ -172,6 +172,29 @@ def is_seq_kind(p: tuple) -> bool:
     return False
 
 
+def max_level(x) -> int:
+    m = -1
+    for leaf in leaves(x):
+        if leaf.startswith("#") and leaf[1:].split(".")[0].isdigit():
+            m = max(m, int(leaf[1:].split(".")[0]))
+    return m
+
+
+def index_form(d, bv: tuple):
+    """(domain, element) with sequence iteration rewritten to index iteration."""
+    if isinstance(d, tuple) and d and d[0] == "iter":
+        T = d[1]
+        return ("range", ZERO, atom_poly(("call", "len", (T,)))), subscript(T, bv)
+    if isinstance(d, tuple) and d and d[0] == "dom":
+        return index_form(d[1], bv)
+    if isinstance(d, tuple) and d and d[0] == "enumerate":
+        inner, elem = index_form(d[1], bv)
+        if isinstance(inner, tuple) and inner[0] == "range" and inner[1] == ZERO:
+            return inner, mk_tuple((add(bv, d[2]), elem))
+        return d, bv
+    return d, bv
+
+
 def norm_iter(t: tuple) -> tuple:
     """Iteration domain of a value: list(x)/tuple(x) iterate x, d.keys() iterates d."""
     a = single_atom(t)
@@ -193,6 +216,10 @@ def mk_tuple(elts: tuple) -> tuple:
             b = single_atom(a0[1])
             if b is not None and b[0] == "sym" and (b[1].startswith("#") or b[1].startswith("@")):
                 return a0[1]
+            if b is not None and b[0] == "sub" and len(b[2]) == 1:
+                ib = single_atom(b[2][0])
+                if ib is not None and ib[0] == "sym" and (ib[1].startswith("#") or ib[1].startswith("@")):
+                    return a0[1]  # the loop element X[#k], unpacked as a pair
     return atom_poly(("tuple", elts))
 
 
@@ -590,7 +617,8 @@ class Translator:
         if name in ("list", "tuple") and len(args) == 1 and not kw:
             if isinstance(args[0], ast.Call) and txt_(args[0].func) == "range":
                 lvl = self._level()
-                return atom_poly(("seq", sym(f"#{lvl}"), self.domain(args[0]), lvl))  # list(range(..)) = [v for v in range(..)]
+                dom, elem, lvl = self.domain_elem(args[0], lvl)
+                return atom_poly(("seq", elem, dom, lvl))  # list(range(..)) = [v for v in range(..)]
             inner = self.tr(args[0])
             ia = single_atom(inner)
             if ia is not None and ia[0] == "call" and ia[1] == ".keys" and len(ia[2]) == 1:
@@ -633,12 +661,22 @@ class Translator:
             return self.domain(it.func.value)  # iterating d.keys() is iterating d
         return ("iter", norm_iter(self.tr(it)))
 
-    def bind(self, target: ast.AST, level: int) -> Dict[str, tuple]:
+    def domain_elem(self, it: ast.AST, level: int):
+        """(domain, element term) in *index form*: iterating a sequence value T is iterating
+        range(0, len(T)) with element T[#level]; enumerate adds the index; so `for x in X`,
+        `for i, x in enumerate(X)` and `for i in range(len(X)): X[i]` coincide."""
+        d = self.domain(it)
+        level = max(level, max_level(d) + 1)  # never capture a bound variable that occurs inside the domain
+        bv = sym(f"#{level}")
+        dom, elem = index_form(d, bv)
+        return dom, elem, level
+
+    def bind(self, target: ast.AST, level: int, elem: Optional[tuple] = None) -> Dict[str, tuple]:
         """Bound-variable environment for a loop/comprehension target at de Bruijn level: a name target is
         the bound variable #level itself, tuple targets are its components #level[i] (so `for u, v in E`
         and `for e in E: u, v = e` coincide)."""
         env = {}
-        bv = sym(f"#{level}")
+        bv = elem if elem is not None else sym(f"#{level}")
 
         def rec(t, val):
             if isinstance(t, ast.Name):
@@ -656,13 +694,14 @@ class Translator:
             return self.comp_reduction(op, arg.elt, arg.generators)
         # sum(x) over an opaque iterable
         lvl = self._level()
-        return atom_poly((op, sym(f"#{lvl}"), self.domain(arg), lvl))
+        dom, elem, lvl = self.domain_elem(arg, lvl)
+        return make_reduce(op, elem, dom, lvl)
 
     def comp_reduction(self, op: str, elt: ast.AST, gens: List[ast.comprehension]) -> tuple:
         g = gens[0]
         level = self._level()
-        dom = self.domain(g.iter)
-        inner = self.child(self.bind(g.target, level))
+        dom, elem, level = self.domain_elem(g.iter, level)
+        inner = self.child(self.bind(g.target, level, elem))
         if g.ifs:
             dom = ("filter", dom, tuple(inner.tr(c) for c in g.ifs))
         if len(gens) > 1:
@@ -690,8 +729,8 @@ class Translator:
     def t_ListComp(self, n):
         g = n.generators[0]
         level = self._level()
-        inner = self.child(self.bind(g.target, level))
-        dom = self.domain(g.iter)
+        dom, elem, level = self.domain_elem(g.iter, level)
+        inner = self.child(self.bind(g.target, level, elem))
         if g.ifs:
             dom = ("filter", dom, tuple(inner.tr(c) for c in g.ifs))
         if len(n.generators) > 1:
@@ -699,6 +738,16 @@ class Translator:
         return atom_poly(("seq", inner.tr(n.elt), dom, level))
 
     t_GeneratorExp = t_ListComp
+
+    def t_DictComp(self, n):
+        if len(n.generators) != 1:
+            return self.opaque(n)
+        g = n.generators[0]
+        level = self._level()
+        dom, elem, level = self.domain_elem(g.iter, level)
+        inner = self.child(self.bind(g.target, level, elem))
+        conds = tuple(inner.tr(c) for c in g.ifs)
+        return atom_poly(("dictacc", (("set", inner.tr(n.key), inner.tr(n.value), ((dom, level, conds),)),)))
 
     def t_JoinedStr(self, n):
         parts = []
